@@ -40,7 +40,10 @@ type BLS12PublicKey struct {
 
 // ToBytes marshals the public key to a byte slice.
 func (pub BLS12PublicKey) ToBytes() []byte {
-	return bls12.NewG1().ToCompressed(pub.p)
+	// ToCompressed normalises the point it is given in place; work on a copy, because the key
+	// object is shared between concurrent verifications.
+	p := *pub.p
+	return bls12.NewG1().ToCompressed(&p)
 }
 
 // FromBytes unmarshals the public key from a byte slice.
@@ -113,7 +116,10 @@ func (agg *BLS12AggregateSignature) ToBytes() []byte {
 	if agg == nil {
 		return nil
 	}
-	b := bls12.NewG2().ToCompressed(&agg.sig)
+	// ToCompressed normalises the point it is given in place; work on a copy, because the
+	// signature object is shared between concurrent verifications.
+	p := agg.sig
+	b := bls12.NewG2().ToCompressed(&p)
 	return b
 }
 
@@ -214,8 +220,11 @@ func (bls *bls12Base) coreVerify(pubKey *BLS12PublicKey, message []byte, signatu
 		return err
 	}
 	engine := bls12.NewEngine()
-	engine.AddPairInv(&bls12.G1One, signature)
-	engine.AddPair(pubKey.p, messagePoint)
+	// the pairing engine normalises the points it is given in place; signature and public key
+	// objects are shared between concurrent verifications, so it gets copies.
+	sig, pk := *signature, *pubKey.p
+	engine.AddPairInv(&bls12.G1One, &sig)
+	engine.AddPair(&pk, messagePoint)
 	if !engine.Result().IsOne() {
 		return fmt.Errorf("bls12: failed to verify message")
 	}
@@ -290,10 +299,12 @@ func (bls *bls12Base) coreAggregateVerify(publicKeys []*BLS12PublicKey, messages
 		if err != nil {
 			return err
 		}
-		engine.AddPair(publicKeys[i].p, q)
+		pk := *publicKeys[i].p // see coreVerify: never hand shared points to the engine
+		engine.AddPair(&pk, q)
 	}
 
-	engine.AddPairInv(&bls12.G1One, signature)
+	sig := *signature
+	engine.AddPairInv(&bls12.G1One, &sig)
 	if !engine.Result().IsOne() {
 		return fmt.Errorf("bls12: failed to verify aggregated message")
 	}
